@@ -24,13 +24,15 @@ row-major order; for a lazy-expression argument x_k is the scalar operator appli
                          is outside the typing), sqrt is an uninterpreted function of the radicand.  Decided: the radicand is the
                          specified polynomial and sqrt is applied once to it.  NOT decided: that sqrts() is correctly rounded and
                          the n*eps error bound of the floating sum.
-  product(x)             B01 (bounded): inputs in {0,1}, r == x_0*...*x_{n-1}  (never counted as proved)
-  determinant(A), n<=4   B01 (bounded): inputs in {0,1}, r == Leibniz sum (closed-form strategies; int n<=4, float/double n<=3:
-                         the 4x4 floating query -- 24 four-fold IEEE products on each side -- is not decided in 900 s)
+  product(x)             n <= 10 elements: multilinear in its n elements -> TAGS/BASIS pair of vf.multilinear_cases (a proof for all
+                         values; floats in the ring reinterpretation); n > 10 (the only way to reach the 16-lane AVX-512 kernels)
+                         and lazy-expression arguments: B01 bounded, inputs in {0,1} (families product-*-b01, never counted as proved)
+  determinant(A), n<=4   closed-form strategies: multilinear in the n rows -> TAGS/BASIS pair, r == Leibniz sum over permutations
+                         (int, float, double; n = 2,3,4); det(A - B) in the bounded 0/1 domain (family det-b01)
 Large ATOMS queries are split into a "+typing" and a "+unit" query (see atoms_cases) that together give the same conclusion.
-Not decided / left out: LU- and QR-based determinants (n > 4) and isorthogonal (need real floating products), floating 4x4
-closed-form determinant, product() beyond the 0/1 domain (a single symbolic 32-bit multiplier is already intractable), norm of
-integer tensors, every rounding bound of the property ("machine arithmetic treated as mathematical").
+Not decided / left out: LU- and QR-based determinants (n > 4) and isorthogonal (need real floating products / divisions),
+product() of more than 10 elements outside the 0/1 domain, norm of integer tensors, every rounding bound of the property
+("machine arithmetic treated as mathematical").
 """
 from units.common import *
 # 64-bit integers as int64_t: on LP64 `long long` (vf.I64) is a different type and never reaches SIMDVector<int64_t,ABI>
@@ -42,8 +44,9 @@ LEVEL_NOTE = ('per instantiation (function, type, size/shape, argument kind, ISA
               'isequal and issymmetric on ints, trace/sum of int32 for small n.  UF (float subtraction uninterpreted): isequal/issymmetric on '
               'floats.  ATOMS (equality of polynomials, floats in the ring reinterpretation; queries with more than 10 table entries are '
               'split into a typing query over all 0/1 tables and a value query over the unit tables): sum, trace, inner, the radicand of norm '
-              '(sqrt opaque).  B01 bounded, never counted as proved: product, closed-form determinant.  Not decided: rounding bounds, '
-              'LU/QR determinants, isorthogonal, float 4x4 determinant, correct rounding of sqrt.')
+              '(sqrt opaque).  TAGS/BASIS pairs (multilinear code): product of <= 10 elements, closed-form determinant n <= 4.  B01 bounded, never '
+              'counted as proved: product of > 10 elements, product/det of lazy expressions.  Not decided: rounding bounds, LU/QR determinants, '
+              'isorthogonal, correct rounding of sqrt.')
 
 FLT_MAX = {32: 3.4028234663852886e+38, 64: 1.7976931348623157e+308}
 ALL_TYPES = (INT, FLT, DBL)
@@ -344,20 +347,28 @@ def fold_mul(es):
     for e in es[1:]: r = r * e
     return r
 
-def product_case(ty, shape, cfg, kind, bounded=True):
+def product_case(ty, shape, cfg, kind):
+    """n == 1: exact (SYM).  2 <= n <= 10 with a tensor argument: multilinear in the n elements -> TAGS/BASIS pair (a proof for
+    all values; floats in the ring reinterpretation).  Otherwise (more than 10 elements -- needed to reach the 16-lane AVX-512
+    kernels -- or a lazy-expression argument): bounded B01, inputs in {0,1}."""
+    n = prod(shape)
     c = Buf('c', ty, 1, 'out')
+    tensor_arg = kind in ('own', 'map', 'method', 'method-map')
+    multilinear = tensor_arg and 2 <= n <= 10
     if kind in ('method', 'method-map'):
-        bufs, decl, x, el = argument(ty, shape, 'own' if kind == 'method' else 'map')
+        bufs, decl, x, el = argument(ty, shape, 'own' if kind == 'method' else 'map', atoms=('TR', 1, 0) if multilinear else None)
         call = '%s.product()' % x
     else:
-        bufs, decl, x, el = argument(ty, shape, kind)
+        bufs, decl, x, el = argument(ty, shape, kind, atoms=('TR', 1, 0) if multilinear else None)
         call = 'product(%s)' % x
     body = '    %s\n    c[0] = %s;' % (decl, call)
-    spec = fold_mul(el)
-    ens = [('bool', 'product == x_0*...*x_n-1', E.post(c, 0).cmp('eq', spec))]
-    fam = 'product-' + ('int' if ty.kind == 'int' else 'flt') + ('' if bounded else '-sym')
-    return Case(cid(fam, ty, shape, kind, cfg), 'C16', body, bufs + [c], ens, 'SYM', cfg,
-                requires=zero_one(bufs) if bounded else [], bounded=bounded)
+    fam = 'product-' + ('int' if ty.kind == 'int' else 'flt')
+    if n == 1 and tensor_arg:
+        return [Case(cid(fam, ty, shape, kind, cfg), 'C16', body, bufs + [c], [(c, 0, el[0])], 'SYM', cfg)]
+    if multilinear:
+        return multilinear_cases(Case(cid(fam, ty, shape, kind, cfg), 'C16', body, bufs + [c], [(c, 0, fold_mul(el))], 'SYM', cfg))
+    ens = [('bool', 'product == x_0*...*x_n-1', E.post(c, 0).cmp('eq', fold_mul(el)))]
+    return [Case(cid(fam + '-b01', ty, shape, kind, cfg), 'C16', body, bufs + [c], ens, 'SYM', cfg, requires=zero_one(bufs), bounded=True)]
 
 def perm_sign(p):
     s = 1; p = list(p)
@@ -376,13 +387,19 @@ def leibniz(el, n, ty):
     return r
 
 def det_case(ty, n, cfg, kind, fn='determinant'):
+    """closed-form determinants: multilinear in the n rows -> TAGS/BASIS pair for tensor arguments; a lazy-expression
+    argument (A - B) is checked in the bounded 0/1 domain."""
     c = Buf('c', ty, 1, 'out')
-    bufs, decl, x, el = argument(ty, (n, n), kind)
+    multilinear = kind in ('own', 'map') and n >= 2
+    bufs, decl, x, el = argument(ty, (n, n), kind, atoms=('TR', n, 0) if multilinear else None)
     body = '    %s\n    c[0] = %s(%s);' % (decl, fn, x)
+    k2 = kind + ('' if fn == 'determinant' else '-' + fn)
+    if n == 1:
+        return [Case(cid('det-1x1', ty, (n, n), k2, cfg), 'C16', body, bufs + [c], [(c, 0, el[0])], 'SYM', cfg)]
+    if multilinear:
+        return multilinear_cases(Case(cid('det', ty, (n, n), k2, cfg), 'C16', body, bufs + [c], [(c, 0, leibniz(el, n, ty))], 'SYM', cfg))
     ens = [('bool', 'determinant == Leibniz sum', E.post(c, 0).cmp('eq', leibniz(el, n, ty)))]
-    fam = 'det' if n > 1 else 'det-1x1'
-    return Case(cid(fam, ty, (n, n), kind + ('' if fn == 'determinant' else '-' + fn), cfg), 'C16', body, bufs + [c], ens, 'SYM', cfg,
-                requires=zero_one(bufs), bounded=True)
+    return [Case(cid('det-b01', ty, (n, n), k2, cfg), 'C16', body, bufs + [c], ens, 'SYM', cfg, requires=zero_one(bufs), bounded=True)]
 
 # ----------------------------------------------------------------------------------------------
 # the box
@@ -483,18 +500,20 @@ def cases(tier, seed):
                     if main_std:
                         for shape in [(2, 2), (3, 3)]:
                             out += norm_case(ty, shape, cfg, 'own')
-                # ---- product (bounded) ----
+                # ---- product: multilinear pair for n <= 10, bounded 0/1 beyond ----
                 if mult_ok and main_std:
-                    szs = sizes_few(V) + [2, V - 1] if not full else sizes_boundary(V)
-                    for i, n in enumerate(sorted(set(x for x in szs if x >= 1))):
-                        out.append(product_case(ty, (n,), cfg, ['own', 'map', 'method', 'expr-sub' if ty.kind == 'int' else 'method-map'][i % 4]))
-                # ---- closed-form determinants (bounded) ----
+                    szs = {1, 2, 3, V - 1, V, V + 1, 2 * V + 1, 10} if not full else set(range(1, 11)) | {V - 1, V, V + 1, 2 * V + 1}
+                    szs = sorted(x for x in szs if 1 <= x <= 10) + ([V + 1] if V + 1 > 10 else []) + ([2 * V + 3] if full else [])
+                    for i, n in enumerate(szs):
+                        out += product_case(ty, (n,), cfg, ['own', 'map', 'method', 'method-map'][i % 4])
+                    out += product_case(ty, (2, 3), cfg, 'own')
+                    if ty.kind == 'int': out += product_case(ty, (V + 1,), cfg, 'expr-sub')
+                # ---- closed-form determinants: multilinear in the rows ----
                 if mult_ok and main_std:
                     for n in (1, 2, 3, 4):
-                        if n == 4 and ty.kind == 'float' and not os.environ.get('C16_DET4'): continue    # 0/1 query not decided in 900 s (24 four-fold IEEE products on each side)
-                        out.append(det_case(ty, n, cfg, 'own'))
-                        if n in (2, 3): out.append(det_case(ty, n, cfg, 'map'))
-                        if n == 2: out.append(det_case(ty, n, cfg, 'expr-sub', fn='det'))
+                        out += det_case(ty, n, cfg, 'own')
+                        if n in (2, 3): out += det_case(ty, n, cfg, 'map')
+                        if n == 2 and ty.kind == 'int': out += det_case(ty, n, cfg, 'expr-sub', fn='det')
                 # ---- predicates on comparison expressions, isequal, issymmetric ----
                 if (ty.bits == 32 and main_std) or full:
                     rels = ['lt', 'eq', 'ge', 'ne', 'gt', 'le']
@@ -533,6 +552,6 @@ def cases(tier, seed):
 def evidence_extra(tier):
     return {'box': {'sizes': 'sum: every n in 1..2V+3 per ISA vector width V; min/max: n <= V+1 (quick <= 9, thorough <= 17); inner/norm: boundary sizes up to 4V+1 / 8V+3',
                     'argument_kinds': ['owning tensor', 'TensorMap (unaligned)', 'lazy A + B', 'lazy A - B', 'member function', 'rank 2-4 shapes'],
-                    'bounded_families': ['product-int', 'product-flt', 'det'],
-                    'not_decided': ['LU/QR determinants', 'isorthogonal', 'float/double 4x4 closed-form determinant', 'rounding bounds', 'correct rounding of sqrt in norm',
-                                    'product outside the 0/1 domain', 'norm of integer tensors']}}
+                    'bounded_families': ['product-int-b01', 'product-flt-b01', 'det-b01'],
+                    'not_decided': ['LU/QR determinants', 'isorthogonal', 'rounding bounds', 'correct rounding of sqrt in norm',
+                                    'product of more than 10 elements outside the 0/1 domain', 'norm of integer tensors']}}
